@@ -218,6 +218,17 @@ def handler (op : String) (j : Json) : Option (R Json) :=
     let t ← asTmpl (← j.getObjVal? "tmpl")
     let (h', seq) := gateDecomposeH h a t
     pure <| Json.mkObj [("heap", jheap h'), ("seq", jarr (seq.map fun c => jarr [jnat c.1, natList c.2]))]
+  | "eng.merge" => some do
+    let h ← asHeap (← j.getObjVal? "heap")
+    let a ← getNat j "a"
+    let b ← getNat j "b"
+    let (h', r) := if getBoolD j "channel" false then channelMergeH false h a b else gateMergeH false h a b
+    let res := match r with
+      | .identity => Json.str "identity"
+      | .failure => Json.str "failure"
+      | .unmodelled => Json.str "unmodelled"
+      | .merged x => Json.mkObj [("merged", jnat x)]
+    pure <| Json.mkObj [("res", res), ("heap", jheap h')]
   | _ => none
 
 end SFV.Drv.Engine
